@@ -114,6 +114,17 @@ def run(ctx):
                 if not (np.allclose(r.amplitude, plane.amplitude, rtol=0, atol=1e-12) and np.allclose(r.opd, plane.opd, rtol=0, atol=1e-18)
                         and np.array_equal(mk, np.asarray(plane.mask))):
                     ctx.violation(dict(sig, kind='identity-at-scale-1'), detail, case=None)
+            # the result is then used and changed in place (tilt fitted out, arrays overwritten): the original still is what it was
+            try:
+                for arr in (r.amplitude, r.opd, r.mask):
+                    if isinstance(arr, np.ndarray) and arr.flags.writeable:
+                        arr[...] = 0
+                r.tilt.append(lentil.Tilt(1e-6, -2e-6))
+                r.fit_tilt(inplace=True)
+            except Exception:
+                pass                 # (a plane without a pixel scale refuses to fit tilt: whether the use succeeds is not the point)
+            if pickle.dumps(plane) != before:
+                ctx.violation(dict(sig, kind='original-shares-state-with-result'), detail, case=None)
     # ---- numeric leaf: power and propagated image to interpolation accuracy ------------------------------------------------------
     nleaf = 0
     for shape in ((32, 32), (33, 31), (40, 36)):
